@@ -124,21 +124,23 @@ func printOf(r ExecResult, ctx sdk.Context, keys map[string]*storetypes.KVStoreK
 }
 
 // compare R executions; report the first difference
-func c18Compare(rep *Report, id int, family string, runs [][]c18Print, human []string) {
+// returns true when all executions agree
+func c18Compare(rep *Report, id int, family string, runs [][]c18Print, human []string) bool {
 	for k := 1; k < len(runs); k++ {
 		if len(runs[k]) != len(runs[0]) {
 			rep.Violate(Violation{Case: id, Step: 0, What: "executions have different lengths", Sig: "C18:nondeterministic-length", Ops: human})
-			return
+			return false
 		}
 		for i := range runs[0] {
 			if d := runs[0][i].diff(runs[k][i]); d != "" {
 				rep.Violate(Violation{Case: id, Step: i, What: fmt.Sprintf("%s history: execution 1 and execution %d on fresh instances differ in %s at step %d (%s)", family, k+1, d, i, human[i]),
 					Sig: "C18:nondeterministic-" + d, Ops: human[:i+1],
 					Detail: map[string]interface{}{"execution_1": runs[0][i], fmt.Sprintf("execution_%d", k+1): runs[k][i]}})
-				return
+				return false
 			}
 		}
 	}
+	return true
 }
 
 // ---------------- L2 operations incl. block boundaries ----------------
@@ -299,6 +301,31 @@ func c18L2Messages(sc *L2Scenario, n int) {
 			m := 1 + r.Intn(3)
 			for j := 0; j < m; j++ {
 				np.Execs = append(np.Execs, e.User(uint64(1+r.Intn(6))).Str)
+			}
+			if r.Chance(50) {
+				// address lists with repeated entries: 3-6 distinct addresses, one or two of them twice
+				// (Params.Validate accepts repetitions in both lists)
+				dup := func() []string {
+					perm := []uint64{1, 2, 3, 4, 5, 6}
+					for i := len(perm) - 1; i > 0; i-- {
+						j := r.Intn(i + 1)
+						perm[i], perm[j] = perm[j], perm[i]
+					}
+					var l []string
+					for _, u := range perm[:3+r.Intn(4)] {
+						l = append(l, e.User(u).Str)
+					}
+					for x := 0; x < 1+r.Intn(2); x++ {
+						pos := r.Intn(len(l) + 1)
+						d := l[r.Intn(len(l))]
+						l = append(l[:pos], append([]string{d}, l[pos:]...)...)
+					}
+					return l
+				}
+				np.Execs = dup()
+				if r.Chance(70) {
+					np.Whitelist = dup()
+				}
 			}
 			auth := sc.SenderString(r.Weighted([]int{10, 0, 10, 75, 5, 0}))
 			sc.register(auth)
@@ -515,8 +542,7 @@ func genC18(seed uint64, tier string, outdir string) *Report {
 				runs[x] = append(runs[x], printOf(res, sc.Env.Ctx, sc.Env.Keys))
 			}
 		}
-		c18Compare(rep, id, "L1", runs, human)
-		{ // the same history on a fresh instance that pre-executes operations on discarded branches
+		if c18Compare(rep, id, "L1", runs, human) { // the same history on a fresh instance that pre-executes operations on discarded branches
 			plan := c18SpecPlan(NewRng(s^0x5bec), len(c.Ops), nil, nil)
 			sc := NewL1Scenario(s, id, nil)
 			var spec []c18Print
@@ -569,8 +595,7 @@ func genC18(seed uint64, tier string, outdir string) *Report {
 				runs[x] = append(runs[x], printOf(res, f.Env.Ctx, f.Env.Keys))
 			}
 		}
-		c18Compare(rep, id, "L2", runs, human)
-		{
+		if c18Compare(rep, id, "L2", runs, human) {
 			plan := c18SpecPlan(NewRng(s^0x5bec), len(c.Ops), nil, nil)
 			f := NewL2Scenario(s, id, false)
 			var spec []c18Print
@@ -659,8 +684,7 @@ func genC18(seed uint64, tier string, outdir string) *Report {
 				rep.Hist("val:endblock:executor-change-applied")
 			}
 		}
-		c18Compare(rep, id, "validator-block", runs, human)
-		{ // every begin / end blocker (and some messages) is first run once or twice on a discarded branch
+		if c18Compare(rep, id, "validator-block", runs, human) { // every begin / end blocker (and some messages) is first run once or twice on a discarded branch
 			plan := c18SpecPlan(NewRng(s^0x5bec), len(ops),
 				func(i int) bool { return ops[i].Kind == "end" || ops[i].Kind == "begin" },
 				func(i int) bool { return ops[i].Kind == "plan" })
@@ -688,6 +712,7 @@ func genC18(seed uint64, tier string, outdir string) *Report {
 			nL1, lenL1, nL2, lenL2, nVal, blocks, R, maxRemovals),
 		"compared across executions: verdict, error string, response bytes, complete event list in order, validator-update list in order, sha256 of the raw key/value dump of every mounted store after every operation",
 		"not shown by this technique: dependence on wall-clock, randomness or process history is only sampled by repetition inside one process")
+	genC18Oracle(rep, seed, tier, R, &id)
 	writeShards(outdir, "C18l1", l1CaseHeader, "run_l1case", "l1case", l1Texts, 8, rep)
 	writeShards(outdir, "C18l2", l2CaseHeader, "run_l2case", "l2case", l2Texts, 8, rep)
 	return rep
